@@ -80,4 +80,96 @@ example :
     let b : Buf := { size := 3, t := { chunks := [[1, 2], [3, 4, 5]] } }
     (b.take 2).1 = [1, 2] ∧ ((b.take 2).2.2.read 9).1 = [3, 4, 5] := by decide
 
+/-! ### non-vacuity -/
+section NonVacuity
+set_option linter.defProp false
+open WS WS.SrcLaw WS.Codec WS.ReaderDecodes
+
+/-- a bufio.Reader of 4096 bytes holding 3 buffered bytes over a transport that will deliver two more
+    chunks and then fail with a transport error -/
+def witBuf : Buf :=
+  { size := 4096, buf := [1, 2, 3], t := { chunks := [[4, 5], [6, 7, 8, 9]], term := .transport 3 }, total := 9 }
+
+def witBuf_wf : WF witBuf := ⟨by decide, by decide, by decide, (by intro e h; cases h)⟩
+
+/-- non-vacuity of `take_is_stream_prefix`: a 4-byte header read across the buffer/transport border -/
+example : (witBuf.take 4).1 = [1, 2, 3, 4] ∧ (witBuf.take 4).2.1 = none ∧
+    (witBuf.take 4).2.2.pending = [5, 6, 7, 8, 9] ∧ WF (witBuf.take 4).2.2 ∧ Same witBuf (witBuf.take 4).2.2 :=
+  take_is_stream_prefix witBuf witBuf_wf 4 (by decide) (by decide)
+
+/-- non-vacuity of `read_is_stream_prefix`: Read(2) -/
+example : (witBuf.read 2).1 ++ (witBuf.read 2).2.2.pending = witBuf.pending ∧ (witBuf.read 2).1.length ≤ 2 ∧
+    (witBuf.pending ≠ [] → (witBuf.read 2).1 ≠ []) ∧
+    (∀ e, (witBuf.read 2).2.1 = some e → (witBuf.read 2).2.2.pending = [] ∧ e = witBuf.t.term) ∧
+    (witBuf.pending = [] → (witBuf.read 2).2.1 = some witBuf.t.term) ∧
+    WF (witBuf.read 2).2.2 ∧ Same witBuf (witBuf.read 2).2.2 :=
+  read_is_stream_prefix witBuf witBuf_wf 2 (by decide)
+
+/-- non-vacuity of `skip_is_stream_drop`: skipping 7 of the 9 pending bytes -/
+example : (witBuf.skip 7).1 = none ∧ (witBuf.skip 7).2.pending = [8, 9] ∧ WF (witBuf.skip 7).2 ∧ Same witBuf (witBuf.skip 7).2 :=
+  skip_is_stream_drop witBuf witBuf_wf 7 (by decide)
+
+/-- instance of `unmask_across_reads` (no hypotheses): "Hello" split 2 + 3 at key offset 3 -/
+example : maskFrom ⟨0x37, 0xfa, 0x21, 0x3d⟩ 3 ([0x48, 0x65] ++ [0x6c, 0x6c, 0x6f]) =
+    maskFrom ⟨0x37, 0xfa, 0x21, 0x3d⟩ 3 [0x48, 0x65] ++ maskFrom ⟨0x37, 0xfa, 0x21, 0x3d⟩ ((3 + 2) % 4) [0x6c, 0x6c, 0x6f] :=
+  unmask_across_reads _ 3 _ _
+
+/-- a text message "Hello" in two fragments ("Hel" non-final, "lo" final) with a ping "p" in between,
+    each frame masked with its own key (the reader is a server) -/
+def witMsg : List PFrame :=
+  [{ op := 1, fin := false, key := ⟨0x37, 0xfa, 0x21, 0x3d⟩, payload := [0x48, 0x65, 0x6c] },
+   { op := 9, fin := true, key := ⟨1, 2, 3, 4⟩, payload := [0x70] },
+   { op := 0, fin := true, key := ⟨0xa0, 0xb0, 0xc0, 0xd0⟩, payload := [0x6c, 0x6f] }]
+
+def witMsg_shape : MsgShape 1 witMsg :=
+  MsgShape.frag _ _ rfl rfl (by decide)
+    (Tail.ctl _ _ ⟨Or.inl rfl, rfl, by decide⟩ (Tail.last _ rfl rfl (by decide)))
+
+/-- a second, unfragmented binary message of 4 bytes preceded by a pong -/
+def witMsg2 : List PFrame :=
+  [{ op := 10, fin := true, key := ⟨5, 6, 7, 8⟩, payload := [] },
+   { op := 2, fin := true, key := ⟨9, 8, 7, 6⟩, payload := [0xde, 0xad, 0xbe, 0xef] }]
+
+def witMsg2_shape : MsgShape 2 witMsg2 :=
+  MsgShape.ctl _ _ ⟨Or.inr rfl, rfl, by decide⟩ (MsgShape.single _ rfl rfl (by decide))
+
+/-- the wire bytes of the two messages followed by the first byte of a third frame -/
+def witWire : Bytes := encAll true witMsg ++ encAll true witMsg2 ++ [0x81]
+
+/-- a server connection, reader idle, 4096-byte bufio.Reader that has buffered the first 5 wire bytes;
+    the rest arrives in chunks of 7 bytes, then the transport times out -/
+def witSrv : Conn :=
+  { w := newW true 4096 false false,
+    r := { isServer := true, nego := false, hlog := [.pong []],
+           buf := { size := 4096, buf := witWire.take 5,
+                    t := { chunks := [(witWire.drop 5).take 7, (witWire.drop 12).take 7, (witWire.drop 19).take 7, witWire.drop 26],
+                           term := .transport 1 },
+                    total := witWire.length } } }
+
+example : witWire.length = 41 := by decide
+
+def witSrv_idle : ReaderIdle witSrv :=
+  ⟨rfl, rfl, rfl, ⟨by decide, by decide, by decide, (by intro e h; cases h)⟩, by decide, by decide,
+    (by intro id h; cases h), (by intro id h; cases h)⟩
+
+/-- non-vacuity of `read_message`: `ReaderIdle`, `MsgShape`, the pending bytes, `hend`, the size and
+    limit hypotheses hold together; reads of 2 bytes -/
+example : ∃ c1 rid, nextReader witSrv = (.msg 1 rid false, c1) ∧
+      ∃ c2, readAll c1 rid 2 = (([0x48, 0x65, 0x6c, 0x6c, 0x6f], none), c2) ∧ ReaderIdle c2 ∧
+        c2.r.buf.pending = encAll true witMsg2 ++ [0x81] ∧
+        c2.r.hlog = [.pong [], .ping [0x70]] :=
+  read_message witSrv witSrv_idle 1 (Or.inl rfl) witMsg witMsg_shape (encAll true witMsg2 ++ [0x81])
+    (by decide) (Or.inl rfl) (by decide) (Or.inl (by decide)) 2 (by decide)
+
+/-- non-vacuity of `abandon_then_next`: the first message is abandoned after one Read of 2 bytes and
+    one of 1 byte; the second message is then read with 3-byte reads -/
+example : ∃ c1 rid1, nextReader witSrv = (.msg 1 rid1 false, c1) ∧
+      ∃ c3 rid2, nextReader (partialReads c1 rid1 [2, 1]) = (.msg 2 rid2 false, c3) ∧
+        ∃ c4, readAll c3 rid2 3 = (([0xde, 0xad, 0xbe, 0xef], none), c4) ∧ ReaderIdle c4 ∧ c4.r.buf.pending = [0x81] ∧
+          c4.r.hlog = [.pong []] ++ [.ping [0x70]] ++ [.pong []] :=
+  abandon_then_next witSrv witSrv_idle 1 2 (Or.inl rfl) (Or.inr rfl) witMsg witMsg2 witMsg_shape witMsg2_shape [0x81]
+    (by decide) (Or.inl rfl) ⟨by decide, by decide⟩ (by decide) [2, 1] 3 (by decide)
+
+end NonVacuity
+
 end WS.Props.C03
